@@ -675,3 +675,170 @@ Proof.
   - intros p r (rr & -> & Hv). unfold client_verify, verify_decide. rewrite Hv. cbn [negb]. eauto.
 Qed.
 
+(** ** Non-vacuity: every theorem above has its hypotheses met by a concrete exchange *)
+Section Examples.
+  Let nseq := fix nseq (s : N) (n : nat) : list N := match n with O => [] | S n' => s :: nseq (N.succ s) n' end.
+  Let ls : list leaf := nseq 0 (N.to_nat 65536).            (* a sector whose leaf i holds "i" *)
+  Let root : sroot := SR (HL <$> ls).
+
+  (* read 128 bytes at offset 128 = leaves 2 and 3 *)
+  Let rp := mk_read_params true 2000 root 128 128.
+  Let honest_read := mk_read_resp (HL <$> take 2 ls) (HL <$> drop 4 ls) 128 [2; 3] 0.
+  Example ex_read_ok : client_read rp (Some honest_read) = Ok (mk_read_result [2; 3] (2000 * 4096)).
+  Proof. vm_compute. reflexivity. Qed.
+  Example ex_read_is_the_range : slice ls (128 / leaf_size) (128 / leaf_size) = [2; 3].
+  Proof. vm_compute. reflexivity. Qed.
+  Example ex_read_flipped_data : client_read rp (Some (mk_read_resp (HL <$> take 2 ls) (HL <$> drop 4 ls) 128 [2; 9] 0)) = Err.
+  Proof. vm_compute. reflexivity. Qed.
+  Example ex_read_other_range_valid_proof :
+    client_read rp (Some (mk_read_resp (HL <$> take 4 ls) (HL <$> drop 6 ls) 128 [4; 5] 0)) = Err.
+  Proof. vm_compute. reflexivity. Qed.
+  Example ex_read_longer_datalength :
+    client_read rp (Some (mk_read_resp (HL <$> take 2 ls) (HL <$> drop 5 ls) 192 [2; 3; 4] 0)) = Err.
+  Proof. vm_compute. reflexivity. Qed.
+  (* the repaired defect: an unaligned read answered with the covering leaves and their valid proof *)
+  Example ex_read_unaligned_covering_leaves :
+    client_read (mk_read_params true 2000 root 32 32) (Some (mk_read_resp [] (HL <$> drop 1 ls) 64 [0] 0)) = Err.
+  Proof. vm_compute. reflexivity. Qed.
+  Example ex_read_short_stream : client_read rp (Some (mk_read_resp (HL <$> take 2 ls) (HL <$> drop 4 ls) 128 [2] 63)) = Err.
+  Proof. vm_compute. reflexivity. Qed.
+  Example ex_read_no_response : client_read rp None = Err.
+  Proof. vm_compute. reflexivity. Qed.
+
+  Let wp := mk_write_params true 100 1000 [7; 8] 0.
+  Example ex_write_ok :
+    match client_write wp (Some (local_root [7; 8])) with
+    | Ok r => bool_decide (wr_root r = local_root [7; 8]) = true ∧ wr_usage r = mk_usage 0 (100 * sector_size * 432) 0 (1000 * 4096) 0 0
+    | Err => False
+    end ∧ wp_extra wp < leaf_size.
+  Proof. split; [vm_compute; split; reflexivity|done]. Qed.
+  Example ex_write_other_root : client_write wp (Some (local_root [7; 9])) = Err.
+  Proof. vm_compute. reflexivity. Qed.
+  Example ex_write_unpadded_root : client_write wp (Some (SR [HL 7; HL 8])) = Err.
+  Proof. vm_compute. reflexivity. Qed.
+  Example ex_write_unaligned : client_write (mk_write_params true 100 1000 [7] 36) (Some (local_root [7])) = Err.
+  Proof. vm_compute. reflexivity. Qed.
+
+  Let vp := mk_verify_params 2000 root 5.
+  Example ex_verify_ok : client_verify vp (Some (mk_verify_resp (HL <$> take 5 ls) (HL <$> drop 6 ls) 5)) = Ok (2000 * sector_size).
+  Proof. vm_compute. reflexivity. Qed.
+  Example ex_verify_next_leaf_valid_proof :
+    client_verify vp (Some (mk_verify_resp (HL <$> take 6 ls) (HL <$> drop 7 ls) 6)) = Err.
+  Proof. vm_compute. reflexivity. Qed.
+  Example ex_verify_lookup : ls !! N.to_nat 5 = Some 5.
+  Proof. vm_compute. reflexivity. Qed.
+
+End Examples.
+
+Section ContractExamples.
+  (* a contract of six sectors *)
+  Let rs : list sroot := [SX 1; SX 2; SX 3; SX 4; SX 5; SX 6].
+  Let v0 : view croot := mk_view 8 (6 * sector_size) (6 * sector_size) (CR rs) 1000000000000000000000000000
+                                 300000000000000000000000000 250000000000000000000000000 1144.
+  Let c0 : contract := mk_contract v0 1 2 (Sig 2 (MRev 1 2 v0)) (Sig 1 (MRev 1 2 v0)).
+  Let pr : prices := mk_nprices 100 1000 2000 1000000000000 200 100.
+  Let fst_or {A B} (o : option (A * B)) (d : A) : A := match o with Some (a, _) => a | None => d end.
+
+  Example ex_contract_signed : contract_signed c0.
+  Proof. split; reflexivity. Qed.
+
+  Let v_roots := fst_or (revise_roots v0 pr 3) v0.
+  Example ex_roots_ok :
+    match client_roots c0 pr true 2 3
+      (Some (mk_roots_resp [SX 1; SX 2] [SX 6] [SX 3; SX 4; SX 5] (Sig 1 (MRev 1 2 v_roots)))) with
+    | Ok (res, roots) => roots = [SX 3; SX 4; SX 5] ∧ v_renter v0 = v_renter (rr_view res) + 2000 * 4096
+                         ∧ rr_hsig res = Sig 1 (MRev 1 2 (rr_view res))
+    | Err => False
+    end.
+  Proof. vm_compute. repeat split; reflexivity. Qed.
+  Example ex_roots_other_range_valid_proof : client_roots c0 pr true 2 3
+      (Some (mk_roots_resp [SX 1] [SX 5; SX 6] [SX 2; SX 3; SX 4] (Sig 1 (MRev 1 2 v_roots)))) = Err.
+  Proof. vm_compute. reflexivity. Qed.
+  Example ex_roots_one_root_too_many : client_roots c0 pr true 2 3
+      (Some (mk_roots_resp [SX 1; SX 2] [] [SX 3; SX 4; SX 5; SX 6] (Sig 1 (MRev 1 2 v_roots)))) = Err.
+  Proof. vm_compute. reflexivity. Qed.
+  Example ex_roots_signature_over_cheaper_revision : client_roots c0 pr true 2 3
+      (Some (mk_roots_resp [SX 1; SX 2] [SX 6] [SX 3; SX 4; SX 5]
+               (Sig 1 (MRev 1 2 (fst_or (revise_roots v0 pr 200) v0))))) = Err.
+  Proof. vm_compute. reflexivity. Qed.
+
+  Let newroots := [SX 11; SX 12; SX 13].
+  Let v_app := fst_or (revise_append v0 pr (CR (rs ++ [SX 11; SX 13])) 2) v0.
+  Example ex_append_ok :
+    match client_append c0 pr newroots
+      (Some (mk_append_resp [true; false; true] rs (CR (rs ++ [SX 11; SX 13])))) (Some (Sig 1 (MRev 1 2 v_app))) with
+    | Ok (res, secs) => secs = [SX 11; SX 13] ∧ v_root (rr_view res) = CR (rs ++ [SX 11; SX 13])
+                        ∧ v_filesize (rr_view res) = 8 * sector_size
+                        ∧ rr_hsig res = Sig 1 (MRev 1 2 (rr_view res))
+    | Err => False
+    end.
+  Proof. vm_compute. repeat split; reflexivity. Qed.
+  Example ex_append_accepted_count : client_append c0 pr newroots
+      (Some (mk_append_resp [true; true] rs (CR (rs ++ [SX 11; SX 12])))) (Some (Sig 1 (MRev 1 2 v_app))) = Err.
+  Proof. vm_compute. reflexivity. Qed.
+  Example ex_append_root_of_other_sectors : client_append c0 pr newroots
+      (Some (mk_append_resp [true; false; true] rs (CR (rs ++ [SX 11; SX 12])))) (Some (Sig 1 (MRev 1 2 v_app))) = Err.
+  Proof. vm_compute. reflexivity. Qed.
+  Example ex_append_stranger_signature : client_append c0 pr newroots
+      (Some (mk_append_resp [true; false; true] rs (CR (rs ++ [SX 11; SX 13])))) (Some (Sig 3 (MRev 1 2 v_app))) = Err.
+  Proof. vm_compute. reflexivity. Qed.
+  Example ex_append_no_signature : client_append c0 pr newroots
+      (Some (mk_append_resp [true; false; true] rs (CR (rs ++ [SX 11; SX 13])))) None = Err.
+  Proof. vm_compute. reflexivity. Qed.
+
+  Let freed := CR [SX 1; SX 5; SX 3; SX 6].
+  Let v_free := fst_or (revise_free v0 pr freed 2) v0.
+  Example ex_free_ok :
+    match client_free c0 pr [3; 1; 3] (Some (mk_free_resp rs freed)) (Some (Sig 1 (MRev 1 2 v_free))) with
+    | Ok res => v_root (rr_view res) = freed ∧ v_filesize (rr_view res) = 4 * sector_size
+                ∧ v_renter v0 = v_renter (rr_view res) + 2 * 1000000000000
+                ∧ rr_hsig res = Sig 1 (MRev 1 2 (rr_view res))
+    | Err => False
+    end.
+  Proof. vm_compute. repeat split; reflexivity. Qed.
+  Example ex_free_models_agree : free_apply rs (normalize [3; 1; 3]) = swap_remove_all rs (normalize [3; 1; 3])
+    ∧ normalize [3; 1; 3] = [3; 1] ∧ desc (normalize [3; 1; 3]).
+  Proof. split; [|split]; [vm_compute; reflexivity ..|]. simpl. repeat constructor. Qed.
+  Example ex_free_plain_removal_root :
+    client_free c0 pr [3; 1; 3] (Some (mk_free_resp rs (CR [SX 1; SX 3; SX 5; SX 6]))) (Some (Sig 1 (MRev 1 2 v_free))) = Err.
+  Proof. vm_compute. reflexivity. Qed.
+  Example ex_free_index_beyond_contract :
+    client_free c0 pr [6] (Some (mk_free_resp rs (CR rs))) (Some (Sig 1 (MRev 1 2 v_free))) = Err.
+  Proof. vm_compute. reflexivity. Qed.
+  Example ex_free_signature_over_old_revision :
+    client_free c0 pr [3; 1; 3] (Some (mk_free_resp rs freed)) (Some (Sig 1 (MRev 1 2 v0))) = Err.
+  Proof. vm_compute. reflexivity. Qed.
+
+  Let v_fund := fst_or (revise_fund v0 30) v0.
+  Example ex_fund_ok :
+    match client_fund c0 [(7, 10); (8, 20)] (Some (mk_fund_resp [15; 25] (Sig 1 (MRev 1 2 v_fund)))) with
+    | Ok (res, bal) => bal = [(7, 15); (8, 25)] ∧ v_renter v0 = v_renter (rr_view res) + 30
+                       ∧ rr_hsig res = Sig 1 (MRev 1 2 (rr_view res))
+    | Err => False
+    end.
+  Proof. vm_compute. repeat split; reflexivity. Qed.
+  Example ex_fund_balance_count : client_fund c0 [(7, 10); (8, 20)] (Some (mk_fund_resp [15] (Sig 1 (MRev 1 2 v_fund)))) = Err.
+  Proof. vm_compute. reflexivity. Qed.
+  Example ex_fund_dearer_revision_signed :
+    client_fund c0 [(7, 10); (8, 20)] (Some (mk_fund_resp [15; 25] (Sig 1 (MRev 1 2 (fst_or (revise_fund v0 31) v0))))) = Err.
+  Proof. vm_compute. reflexivity. Qed.
+
+  Let v_repl := fst_or (revise_fund v0 13) v0.
+  Example ex_replenish_ok :
+    match client_replenish c0 [7; 8; 9] 10 (Some [(7, 10); (8, 3); (9, 0)]) (Some (Sig 1 (MRev 1 2 v_repl))) with
+    | Ok (res, deps) => deps = [(7, 10); (8, 3); (9, 0)] ∧ v_renter v0 = v_renter (rr_view res) + 13
+                        ∧ rr_hsig res = Sig 1 (MRev 1 2 (rr_view res))
+    | Err => False
+    end.
+  Proof. vm_compute. repeat split; reflexivity. Qed.
+  Example ex_replenish_nothing_to_do :
+    client_replenish c0 [7; 8] 10 (Some [(7, 0); (8, 0)]) None
+    = Ok (mk_rev_result v0 (c_rsig c0) (c_hsig c0) usage0, [(7, 0); (8, 0)]).
+  Proof. vm_compute. reflexivity. Qed.
+  Example ex_replenish_above_target : client_replenish c0 [7; 8; 9] 10 (Some [(7, 11); (8, 0); (9, 0)])
+      (Some (Sig 1 (MRev 1 2 (fst_or (revise_fund v0 11) v0)))) = Err.
+  Proof. vm_compute. reflexivity. Qed.
+  Example ex_replenish_extra_deposit : client_replenish c0 [7; 8; 9] 10 (Some [(7, 10); (8, 3); (9, 0); (99, 0)])
+      (Some (Sig 1 (MRev 1 2 v_repl))) = Err.
+  Proof. vm_compute. reflexivity. Qed.
+End ContractExamples.
